@@ -192,7 +192,15 @@ def lean_build(scr):
                            stdout=subprocess.PIPE, stderr=subprocess.STDOUT)
         ext_log = p.stdout.decode(errors="replace")
         if p.returncode != 0:
-            return dict(ok=False, extract_ok=False, log=ext_log, failed=["tools/extract.py"], wall=time.time() - t0)
+            # broken tie.  The driver is still built, from the last data that could be generated (the committed Gen files),
+            # so that K and S can search for a concrete failing input.
+            p1 = subprocess.run(["lake", "build", "eavdrv"], cwd=LEAN, stdout=subprocess.PIPE, stderr=subprocess.STDOUT)
+            drv = os.path.join(scr.dir, "eavdrv")
+            src = os.path.join(LEAN, ".lake/build/bin/eavdrv")
+            if p1.returncode == 0 and os.path.exists(src):
+                shutil.copy2(src, drv)
+            return dict(ok=False, extract_ok=False, driver_ok=p1.returncode == 0, driver=drv, log=ext_log, failed=["tools/extract.py"],
+                        wall=time.time() - t0)
         # 1. the model and its driver (what K and S run); 2. the whole library, i.e. every theorem (P)
         p1 = subprocess.run(["lake", "build", "eavdrv"], cwd=LEAN, stdout=subprocess.PIPE, stderr=subprocess.STDOUT)
         out1 = p1.stdout.decode(errors="replace")
@@ -302,6 +310,7 @@ def run_ops(scr, drive, driver, ops, tag="ops"):
     c_lines = [None] * len(ops)
     lean_in = []
     crashes = []
+    notrun = []
     start = 0
     k = 0
     while start < len(ops):
@@ -340,7 +349,12 @@ def run_ops(scr, drive, driver, ops, tag="ops"):
         start = bad + 1
         k += 1
         if k > 50:
-            raise RuntimeError("harness crashes on more than 50 ops; giving up")
+            # fifty concrete crashing inputs are enough: the remaining ops are not run (their lines are taken from the model below,
+            # so that they add no noise), and the crashes recorded so far are reported
+            notrun = list(range(start, len(ops)))
+            lean_in += [ops[i] for i in notrun]
+            crashes.append(dict(index=None, kind="gave-up", stderr="%d ops not run after 50 sanitizer aborts" % len(notrun)))
+            break
     fl = os.path.join(scr.dir, tag + ".leanin")
     flo = os.path.join(scr.dir, tag + ".leanout")
     with open(fl, "w") as f:
@@ -349,6 +363,13 @@ def run_ops(scr, drive, driver, ops, tag="ops"):
     if p.returncode != 0:
         raise RuntimeError("model driver failed: " + p.stderr.decode(errors="replace")[-500:])
     lean_lines = open(flo).read().split("\n")[:-1]
+    if len(lean_lines) != len(ops) and notrun:
+        # ops that were not run carry no recorded IDN answers: the model's lines after the give-up point are not meaningful
+        lean_lines = (lean_lines + [""] * len(ops))[:len(ops)]
+        for i in notrun:
+            lean_lines[i] = "NOTRUN"
     if len(lean_lines) != len(ops):
         raise RuntimeError("model driver produced %d lines for %d ops" % (len(lean_lines), len(ops)))
+    for i in notrun:
+        c_lines[i] = lean_lines[i]
     return c_lines, lean_lines, crashes
